@@ -345,7 +345,8 @@ META = {
    outside_claim='re-adding an already queued message / removal (erase from the middle of the heap), queues of more than 3 (thorough: 4) messages, 2^32 wrap of the virtual clock, message reload, BusHandler poll trigger',
    assumptions=COMMON_ASSUME + ['queue vector is heap-ordered before the step (std::priority_queue representation invariant)', 'virtual times within [clock-30, clock+priority]'],
  ),
- 'C09': dict(claimed=False, na_reason='tbd', level_text='tbd', level_note='tbd', outside_claim='tbd', assumptions=COMMON_ASSUME),
+ 'C09': dict(claimed=False, na_reason='Message::prepareMaster / decodeLastData need complete Message and DataFieldSet objects (std::map<string,...> construction, beyond this encoding, DESIGN 8.2). The chained-message clause was attempted with a partially constructed ChainedMessage and a hand-set vtable pointer (harness/C09_chain.cpp: real storeLastData -> checkId -> combineLastParts over all arrival orders): the code translates and runs (30 k steps without vector growth), but combineLastParts fills LOCAL SymbolStrings by push_back in loops whose trip count is read from stored data, so every push_back site forks into the growth path; no verdict within 280 s per job even with the fixed-capacity growth model (DESIGN section 19). Not claimed.',
+   level_text='n/a', level_note='n/a', outside_claim='n/a', assumptions=COMMON_ASSUME),
  'C13': dict(
    level_text='Bounded model checking of two parts. (1) History: the real SimpleCondition::isTrue (verdict cache keyed by the referenced message\'s last change time) and CombinedCondition::isTrue, fed by the real Message::storeLastData(slave) change tracking, over U <= 3 (thorough 4) updates with arbitrary value bytes at arbitrary non-decreasing clock readings (steps of 0, 1 or 2 seconds, so several updates within one second are included) with an availability query after every update: not available before the first update; afterwards available iff the most recently stored value satisfies the condition (any range; value-less = seen); asking again gives the same verdict; same for a combined condition of two. (2) Resolution: the real field lookup used when a condition is resolved (DataFieldSet::hasField / SingleDataField::hasField): for every assignment of numeric/string kinds to up to 3 named fields and every query (unnamed or named, numeric or string) the answer is true iff a field of that name and kind exists.',
    level_note='History part: the Message is constructed partially (last-data members only; storeLastData is called non-virtually) and the value test checkValue -> decodeLastDataNumField -> DataFieldSet::read is replaced by a harness condition class that reads the stored data byte directly (same predicate on both sides; the subject is the history tracking, not the decoding, which C05 covers at type level). Outside: range/value-list parsing (splitValues), string conditions\' value comparison, SimpleCondition::resolve message lookup by name, scan conditions -- these sit on Message/MessageMap objects (std::map of strings) that this encoding does not reach within the cap.',
